@@ -224,8 +224,12 @@ class Mode(LogMixin):
 
         self._setup_device_control_events()
 
+        # the queue of the event which started this mode belongs to that event. do not hand it to the handlers of
+        # our own queue event (they would wait on/clear the wrong queue and dead-lock both events)
+        starting_kwargs = dict(kwargs)
+        starting_kwargs.pop('queue', None)
         self.machine.events.post_queue(event=MODE_STARTING_EVENT_TEMPLATE.format(self.name),
-                                       callback=self._started, **kwargs)
+                                       callback=self._started, **starting_kwargs)
         '''event: mode_(name)_starting
 
         desc: The mode called "name" is starting.
